@@ -3,7 +3,7 @@ import re
 
 from .. import access
 from ..cfg import search, witness_str, elem_dominates, Forward
-from ..expr import show, walk, last, field_of, strip_wrappers, strip_casts, short, const_value, access_path
+from ..expr import show, walk, last, field_of, strip_wrappers, strip_casts, strip_views, short, const_value, access_path
 from ..facts import AnalysisBroken
 from ..locks import LOCK_TYPES, mutex_id
 from ..predabs import Vocab, PredAbs, A, Not, And, Or, T, F
@@ -35,6 +35,11 @@ EXPLANATION = (
     "I/O-thread guards on stop/addListener, and every return of stop() is behind this caller's join of the I/O thread or a wait for the caller that is joining it "
     "(only a call on the I/O thread itself, or nothing to join, is let through); R7 no Session* is dereferenced after a call that may free it without a re-lookup (typestate), "
     "and ~Transport touches nothing after handing itself to the engine; R8 engine callbacks are invoked only on I/O-confined paths.")
+# exempt from the function-inventory guard (report.py): these rules hold for, or look into, functions they have never seen
+FOLLOWS_HELPERS = {"C05-R2": "thread-root analysis over the call graph: a new helper is a node of the graph, and every access to a confined field is judged in whichever function it stands",
+                   "C05-R3": "universal per acquisition / std::function invocation in every function of the three files, with acquires-lock / invokes-callback summaries propagated over the call graph",
+                   "C05-R6": "the guard, wait-for-the-joiner and marker clauses walk into helpers of the class (Deep.search over inlined paths); the _loop-handle clause judges every use of _loop wherever it stands",
+                   "C05-R8": "thread-root analysis over the call graph for every callback invocation site; the caller-thread onError exemption and the enqueue-before-join clause follow helpers"}
 NOT_DECIDED = ["absence of deadlock beyond lock-order acyclicity (the join-versus-callback ownership argument is about shared_ptr counts)",
                "'within a bounded time'", "data races on objects the tables do not list"]
 
@@ -101,6 +106,259 @@ def io_confined(roots, cls):
     return roots <= ok, roots - ok
 
 
+# ------------------------------------------------------------------ following calls into helper functions of the same class
+
+def _top(f):
+    while f.enclosing is not None:
+        f = f.enclosing
+    return f
+
+
+def _family(f):
+    """the outermost named scope a function belongs to (`iora::network::TcpEngine` for TcpEngine::stop, for a lambda inside it and
+    for the members of a struct local to it; `iora::network::Transport` for everything of Transport and Transport::Impl)"""
+    t = _top(f)
+    c = t.cls or t.name.rsplit("::", 1)[0]
+    for root in (TCP, UDP, TR):
+        if c == root or c.startswith(root + "::"):
+            return root
+    return c
+
+
+class Deep:
+    """An extracted helper must not change what a rule sees: where a rule asks 'on every path …' or 'which events does this
+    function perform', calls to functions of the same class are entered (callee resolved by qualified name through fb.by_name;
+    only non-virtual calls to functions that have a body; every overload of the name with the right number of parameters is
+    entered, which is conservative for the 'no path …' questions asked here).  A position is (call stack, element); the
+    lockset at a position is the callee's own (locks.py gives private helpers the intersection of their call sites) joined
+    with what the call sites on the stack hold (a callee cannot release its caller's RAII lock; waits are looked at apart)."""
+    MAXDEPTH = 4
+
+    def __init__(self, ctx):
+        self.fb, self.la = ctx.fb(), _la(ctx)
+        self._callees = {}
+        self._closure = {}
+
+    def callees(self, e):
+        if e.kind != "stmt":
+            return ()
+        key = id(e)
+        if key in self._callees:
+            return self._callees[key]
+        n, out = e.node, []
+        k = n.get("k")
+        name = None
+        if k in ("call", "mcall") and not n.get("virt"):
+            name = n.get("callee")
+        elif k == "ctor":
+            name = n.get("cls", "") + "::<ctor>"
+        if name and not name.startswith("std::"):
+            fam = _family(e.fn)
+            nargs = len([a for a in n.get("args", []) if not a.get("def")])
+            seen = set()
+            for g in self.fb.by_name.get(name, []):
+                if not g.ok or g.kind == "lambda" or (g.file, g.line) in seen or _family(g) != fam:
+                    continue
+                if len(g.params) < nargs:
+                    continue
+                seen.add((g.file, g.line))      # instantiations of one template body are interchangeable
+                out.append(g)
+        self._callees[key] = tuple(out)
+        return self._callees[key]
+
+    def closure(self, f):
+        """f and every helper reachable from it through such calls (f first)"""
+        if f.sig not in self._closure:
+            out, work = [], [(f, 0)]
+            while work:
+                g, d = work.pop(0)
+                if g in out:
+                    continue
+                out.append(g)
+                if d < self.MAXDEPTH:
+                    for e in g.stmts():
+                        for c in self.callees(e):
+                            work.append((c, d + 1))
+            self._closure[f.sig] = out
+        return self._closure[f.sig]
+
+    def sites(self, f, pred):
+        """[(function, element)] over f and its helpers for which pred(element) holds"""
+        return [(g, e) for g in self.closure(f) for e in g.elems() if pred(e)]
+
+    def has(self, f, pred):
+        return any(pred(e) for g in self.closure(f) for e in g.elems())
+
+    def relevant(self, top, pred):
+        """enter-predicate for search(): the helpers of `top` that (through their own helpers) contain an element satisfying pred"""
+        cl = self.closure(top)
+        rel = {g.sig for g in cl if any(pred(e) for e in g.elems())}
+        changed = True
+        while changed:
+            changed = False
+            for g in cl:
+                if g.sig not in rel and any(c.sig in rel for e in g.stmts() for c in self.callees(e)):
+                    rel.add(g.sig)
+                    changed = True
+        return lambda g: g.sig in rel
+
+    def nodes(self, f):
+        """every expression node of f and of the helpers it calls (what a predicate 'reads' when it delegates to a named test)"""
+        for g in self.closure(f):
+            for n in g.nodes.values():
+                yield g, n
+
+    def held(self, stack, e, mutex):
+        return self.la.holds(e.fn, e, mutex) or any(self.la.holds(c.fn, c, mutex) for c in stack)
+
+    def mutexes(self, stack, e):
+        out = set(self.la.mutexes(e.fn, e))
+        for c in stack:
+            out |= self.la.mutexes(c.fn, c)
+        return out
+
+    def stacks(self, f, g):
+        """the call stacks (tuples of call elements, outermost first) through which helper g is entered from f"""
+        if g is f:
+            return [()]
+        out = []
+
+        def rec(cur, stack):
+            if len(stack) >= self.MAXDEPTH:
+                return
+            for e in cur.stmts():
+                for c in self.callees(e):
+                    if c is g:
+                        out.append(stack + (e,))
+                    elif g in self.closure(c) and c is not cur:
+                        rec(c, stack + (e,))
+        rec(f, ())
+        return out
+
+    def search(self, f, start, goal, stop=None, edge_ok=None, enter=None):
+        """cfg.search (normal edges only) that walks into helpers: start is ('entry',), an element of f, or (stack, element);
+        goal is 'exit' (f's own normal exit) or goal(e, stack); stop(e, stack) cuts a path at e; enter(g) selects the helpers
+        worth entering (default: all).  A call element is tested by goal/stop first, then entered.  Returns None or the witness as
+        a list of (stack, element-or-None, block)."""
+        from collections import deque
+        if isinstance(start, tuple) and start and start[0] == "entry":
+            q0 = ((), f, f.entry, 0)
+        elif isinstance(start, tuple) and start and start[0] == "block":      # ("block", stack, function, block id)
+            q0 = (tuple(start[1]), start[2], start[3], 0)
+        elif isinstance(start, tuple):
+            stack, se = start
+            q0 = (tuple(stack), se.fn, se.block.id, se.idx + 1)
+        else:
+            q0 = ((), start.fn, start.block.id, start.idx + 1)
+        seen = {q0: None}
+        dq = deque([q0])
+
+        def back(pos, e):
+            path, cur = [], pos
+            while cur is not None:
+                path.append(cur)
+                cur = seen[cur]
+            path.reverse()
+            return [(p[0], p[1], p[2]) for p in path] + [e]
+
+        def push(np, pos):
+            if np not in seen:
+                seen[np] = pos
+                dq.append(np)
+        while dq:
+            pos = dq.popleft()
+            stack, g, bid, idx = pos
+            b = g.blocks[bid]
+            cut = False
+            for e in b.elems[idx:]:
+                if goal != "exit" and goal(e, stack):
+                    return back(pos, e)
+                if stop is not None and stop(e, stack):
+                    cut = True
+                    break
+                cs = [c for c in self.callees(e) if (enter is None or enter(c)) and c is not g and all(c is not x.fn for x in stack)] if len(stack) < self.MAXDEPTH else []
+                if cs:
+                    for c in cs:
+                        push((stack + (e,), c, c.entry, 0), pos)
+                    cut = True          # the path continues when the callee returns
+                    break
+                if e.kind == "stmt" and e.node.get("k") == "throw" and "root" in e.raw:
+                    cut = True
+                    break
+            if cut or b.raw.get("noreturn"):
+                continue
+            if bid == g.exit:
+                if stack:
+                    ce = stack[-1]
+                    push((stack[:-1], ce.fn, ce.block.id, ce.idx + 1), pos)
+                elif goal == "exit":
+                    return back(pos, None)
+                continue
+            for si, s in enumerate(b.succs):
+                if s is None or (edge_ok is not None and not edge_ok(b, si)):
+                    continue
+                push((stack, g, s, 0), pos)
+        return None
+
+    def same_section(self, top, a, b, mutex):
+        """common.same_section over the inlined paths of `top`: the mutex is held continuously on every path between the events
+        a = (function, element) and b, in whichever order they come; a wait in between splits the section.  (True, None) or
+        (False, why)."""
+        for (p1, p2) in ((a, b), (b, a)):
+            (g1, e1), (g2, e2) = p1, p2
+            enter = self.relevant(top, lambda e: e is e2 or _is_cv_wait(e))
+            starts = [s1 for s1 in self.stacks(top, g1) if self.search(top, (s1, e1), lambda e, s: e is e2, enter=enter) is not None]
+            if not starts:
+                continue
+            cache = {}
+
+            def reaches(e, s):
+                k = (s, id(e))
+                if k not in cache:
+                    cache[k] = self.search(top, (s, e), lambda x, s2: x is e2, enter=enter) is not None
+                return cache[k]
+            for s1 in starts:
+                if not self.held(s1, e1, mutex) and not (e1.kind == "stmt" and e1.node.get("k") == "decl"):
+                    return False, "lock not held at the first event"
+                w = self.search(top, (s1, e1), lambda e, s: (not self.held(s, e, mutex) or _is_cv_wait(e)) and (e is e2 or reaches(e, s)), stop=lambda e, s: e is e2, enter=enter)
+                if w is not None:
+                    return False, self.witness(w)
+            return True, None
+        return False, "no path between the two events"
+
+    def only_within(self, cg, f, top, _seen=None):
+        """f is `top` or a helper that runs only as part of `top` (every caller is top or such a helper)"""
+        if f is top:
+            return True
+        _seen = _seen or set()
+        if f.sig in _seen or not any(f is g for g in self.closure(top)):
+            return False
+        callers = [g for (g, e, n) in cg.callers.get(f.name, [])]
+        return bool(callers) and all(self.only_within(cg, _top(g), top, _seen | {f.sig}) for g in callers)
+
+    @staticmethod
+    def witness(w):
+        if not w:
+            return ""
+        out = []
+        for (stack, g, bid) in w[:-1]:
+            b = g.blocks[bid]
+            ln = next((e.line for e in b.elems if e.line), None) or (b.term or {}).get("l")
+            p = "%s:B%d%s" % (last(g.name), bid, "@%d" % ln if ln else "")
+            if not out or out[-1] != p:
+                out.append(p)
+        if len(out) > 12:
+            out = out[:5] + ["…"] + out[-6:]
+        return "→".join(out)
+
+
+def _deep(ctx):
+    key = "_c05_deep_" + ctx.config
+    if not hasattr(ctx, key):
+        setattr(ctx, key, Deep(ctx))
+    return getattr(ctx, key)
+
+
 # ------------------------------------------------------------------ R1
 
 def r1(ctx, r):
@@ -123,13 +381,20 @@ def r1(ctx, r):
             common.guarded_by(r, fb, la, cls + "::" + fld, cls + "::_sessionRwMutex", mode_for_write="x", mode_for_read="s", confined=confined, files=file_,
                               exempt={UDP + "::readFromListener": "`_sessions[sid]` is a lookup: C06-R6 proves every indexed id is in the table, so operator[] never inserts"}
                               if (cls == UDP and fld == "_sessions") else None)
-        # the wake-up write happens under the queue mutex (serialised with the close in shutdownDrain)
-        for f in fb.funcs(cls + "::enqueue", FILES[cls]):
+        # the wake-up write happens under the queue mutex (serialised with the close in shutdownDrain) — every ::write to the eventfd,
+        # in whichever function of the engine it stands (a private helper inherits the lockset of its call sites, locks.py)
+        nwake = 0
+        for f in fb.in_file(FILES[cls]):
+            if not f.ok:
+                continue
             for e in f.stmts():
-                if e.node.get("k") == "call" and e.node.get("callee") == "write" and field_of(e.node["args"][0]) == cls + "::_eventFd":
+                if e.node.get("k") == "call" and e.node.get("callee") == "write" and e.node.get("args") and field_of(e.node["args"][0]) == cls + "::_eventFd":
+                    nwake += 1
                     r.instance()
                     r.expect(la.holds(f, e, cls + "::" + qm), f, e, "wake-up write unlocked", "the eventfd wake-up write is not under the queue mutex: it can hit a descriptor "
-                             "that shutdownDrain has closed (and the kernel may have reused)", okdesc="%s::enqueue: ::write(_eventFd) under %s" % (last(cls), qm))
+                             "that shutdownDrain has closed (and the kernel may have reused)", okdesc="%s: ::write(_eventFd) under %s" % (short(f.name), qm))
+        if not nwake:
+            raise AnalysisBroken("%s: no ::write to the wake-up descriptor found" % last(cls))
     common.guarded_by(r, fb, la, TCP + "::_lastFatal", TCP + "::_fatalMx", files=[FILES[TCP]])
     for fld in ("onAcceptCb", "onConnectCb", "onDataCb", "onCloseCb", "onErrorCb"):
         common.guarded_by(r, fb, la, IMPL + "::" + fld, IMPL + "::callbackMutex", files=[TFILE])
@@ -386,18 +651,30 @@ def r4(ctx, r):
                 r.expect(la.holds(gd, e, SYNC), gd, e, "guard epilogue outside lock", "~%s touches transport state (`%s`) outside its critical section" % (gname, show(e.node)[:60]),
                          okdesc="~%s: `%s` under the lock" % (gname, show(e.node)[:40]))
     # teardownWaitOut: fence before notify, waits for all three counters
+    # (the fence, the wake-ups and the gate predicate may live in helpers of Impl that teardownWaitOut calls under its lock: the
+    # events are collected over teardownWaitOut and those helpers, the order is a must-pass-through over the inlined paths)
+    dp = _deep(ctx)
     tw = fb.func(IMPL + "::teardownWaitOut")
-    sets = [e for (e, n, k) in common.field_writes(tw, IMPL + "::shuttingDown")]
-    nots = [e for e in tw.stmts() if e.node.get("k") == "mcall" and last(e.node.get("callee", "")) in ("notify_all", "notify_one")]
+    sets = set()
+    for g in dp.closure(tw):
+        for (e, n, k) in common.field_writes(g, IMPL + "::shuttingDown"):
+            sets.add(id(e))
+            r.instance()
+            r.expect(const_value(common.assigned_value(g, n) or {}) == 1 and all(dp.held(s, e, SYNC) for s in dp.stacks(tw, g)), g, e, "fence after notify",
+                     "%s (teardown wait-out) writes shuttingDown, but not `= true` under syncMutex" % short(g.name), okdesc="%s: shuttingDown = true under syncMutex" % short(g.name))
+    is_wake = lambda e: e.kind == "stmt" and e.node.get("k") == "mcall" and last(e.node.get("callee", "")) in ("notify_all", "notify_one") and field_of(e.node.get("obj")) != IMPL + "::teardownCv"
     r.instance()
-    r.expect(len(sets) == 1 and nots and all(elem_dominates(tw, sets[0], x) for x in nots) and la.holds(tw, sets[0], SYNC), tw, sets[0] if sets else None, "fence after notify",
-             "teardownWaitOut does not set shuttingDown (under syncMutex) before it wakes the parked callers: a woken caller re-parks", okdesc="teardownWaitOut: shuttingDown = true before notify")
-    waits = common.cv_waits(fb, lambda f: f is tw)
+    w = dp.search(tw, ("entry",), lambda e, s: is_wake(e) or _is_cv_wait(e), stop=lambda e, s: id(e) in sets, enter=dp.relevant(tw, lambda e: is_wake(e) or _is_cv_wait(e) or id(e) in sets))
+    r.expect(bool(sets) and dp.has(tw, is_wake) and w is None, tw, w[-1] if w else None, "fence after notify",
+             "teardownWaitOut does not set shuttingDown (under syncMutex) before it wakes the parked callers%s: a woken caller re-parks" % ((" (" + Deep.witness(w) + ")") if w else ""),
+             okdesc="teardownWaitOut: shuttingDown = true before notify")
+    waits = common.cv_waits(fb, lambda f: any(f is g for g in dp.closure(tw)))
     r.instance()
-    if len(waits) != 1 or waits[0]["pred"] is None:
+    if len(waits) != 1 or waits[0]["pred"] is None or waits[0]["cv"] != IMPL + "::teardownCv":
         r.fail(tw, None, "teardown wait", "teardownWaitOut no longer waits on teardownCv with a predicate")
     else:
-        flds = {last(n["n"]) for n in waits[0]["pred"].nodes.values() if n.get("k") == "member"}
+        # what the gate reads, a named test it delegates to (`return noParkedCallers();`) included
+        flds = {last(n["n"]) for (g, n) in dp.nodes(waits[0]["pred"]) if n.get("k") == "member"}
         r.expect({"activeReceives", "activeConnects", "activeFlushes"} <= flds, tw, waits[0]["e"], "teardown gate incomplete",
                  "the teardown wait predicate reads %s; it must wait for activeReceives, activeConnects and activeFlushes" % sorted(flds), okdesc="teardown waits for all three counters")
     # performTeardown: fence → stop → wait
@@ -455,46 +732,65 @@ def r4(ctx, r):
 # ------------------------------------------------------------------ R5
 
 def r5(ctx, r):
-    fb, la = ctx.fb(), _la(ctx)
+    fb, la, dp, cg = ctx.fb(), _la(ctx), _deep(ctx), ctx.cg()
     for cls in (TCP, UDP):
         q, qc, qm = QUEUE[cls]
+        QM = cls + "::" + qm
         sdr = fb.func(cls + "::shutdownDrain", file_suffix=FILES[cls])
-        closed = [e for (e, n, k) in common.field_writes(sdr, cls + "::" + qc)]
-        swaps = [e for e in sdr.stmts() if e.node.get("k") == "mcall" and last(e.node.get("callee", "")) == "swap" and cls + "::" + q in [field_of(a) for a in e.node["args"]] + [field_of(e.node.get("obj"))]]
-        closes = [e for e in sdr.stmts() if e.node.get("k") == "call" and e.node.get("callee") == "close" and field_of(e.node["args"][0]) == cls + "::_eventFd"]
+        # the three events of the close, in shutdownDrain itself or in a helper it calls (events are (function, element) pairs;
+        # 'under the mutex' and 'one critical section' are evaluated over the inlined paths, Deep.same_section)
+        # — of a helper that exists only as a part of shutdownDrain, that is: process(), which the drain also calls, swaps the queue too
+        parts = [g for g in dp.closure(sdr) if dp.only_within(cg, g, sdr)]
+        part = lambda e: any(e.fn is g for g in parts)
+        closed = [(g, e) for g in parts for (e, n, k) in common.field_writes(g, cls + "::" + qc)]
+        swaps = dp.sites(sdr, lambda e: part(e) and e.kind == "stmt" and e.node.get("k") == "mcall" and last(e.node.get("callee", "")) == "swap" and cls + "::" + q in [field_of(a) for a in e.node["args"]] + [field_of(e.node.get("obj"))])
+        closes = dp.sites(sdr, lambda e: part(e) and e.kind == "stmt" and e.node.get("k") == "call" and e.node.get("callee") == "close" and e.node.get("args") and field_of(e.node["args"][0]) == cls + "::_eventFd")
         r.instance()
-        ok = len(closed) == 1 and len(swaps) == 1 and len(closes) == 1 and all(la.holds(sdr, x, cls + "::" + qm) for x in closed + swaps + closes) and \
-            common.same_section(sdr, la, closed[0], swaps[0], cls + "::" + qm)[0] and common.same_section(sdr, la, closed[0], closes[0], cls + "::" + qm)[0]
-        r.expect(ok, sdr, closed[0] if closed else None, "queue close not atomic", "%s::shutdownDrain does not set the closed flag, drain the residual commands and close the wake-up descriptor in one "
+        ok = len(closed) == 1 and len(swaps) == 1 and len(closes) == 1 and all(dp.held(s, e, QM) for (g, e) in closed + swaps + closes for s in dp.stacks(sdr, g)) and \
+            dp.same_section(sdr, closed[0], swaps[0], QM)[0] and dp.same_section(sdr, closed[0], closes[0], QM)[0]
+        r.expect(ok, sdr, closed[0][1] if closed and closed[0][0] is sdr else None, "queue close not atomic", "%s::shutdownDrain does not set the closed flag, drain the residual commands and close the wake-up descriptor in one "
                  "critical section of %s: an enqueue can slip in between and its command (or its promise) is lost" % (last(cls), qm), okdesc="%s::shutdownDrain: closed=true, swap, close(_eventFd) in one %s section" % (last(cls), qm))
-        # closed flag only set to true there, false only in start()
+        # closed flag only set to true as part of shutdownDrain (by itself or by a helper that runs nowhere else), false only as part of start()
+        starts = fb.funcs(cls + "::start", FILES[cls])
         for f in fb.in_file(FILES[cls]):
             if not f.ok:
                 continue
             for (e, n, k) in common.field_writes(f, cls + "::" + qc):
                 v = const_value(common.assigned_value(f, n) or {})
                 r.instance()
-                r.expect((v == 1 and last(f.name) == "shutdownDrain") or (v == 0 and last(f.name) == "start"), f, e, "closed flag written", "%s writes %s = %s" % (short(f.name), qc, v),
+                r.expect((v == 1 and dp.only_within(cg, _top(f), sdr)) or (v == 0 and any(dp.only_within(cg, _top(f), st_) for st_ in starts)), f, e, "closed flag written", "%s writes %s = %s" % (short(f.name), qc, v),
                          okdesc="%s: %s = %s" % (short(f.name), qc, v))
         for f in fb.funcs(cls + "::enqueue", FILES[cls]):
-            tests = [b for b in f.blocks.values() if b.cond is not None and field_of(b.cond) == cls + "::" + qc]
-            pushes = common.member_calls_on(f, cls + "::" + q, ("push_back", "emplace_back"))
-            writes = [e for e in f.stmts() if e.node.get("k") == "call" and e.node.get("callee") == "write"]
+            # closed test, push and wake-up write: wherever enqueue keeps them (a shared body of the overloads, a wake-up helper)
+            tests = [(g, b.elems[-1]) for g in dp.closure(f) for b in g.blocks.values() if b.cond is not None and b.elems and field_of(b.cond) == cls + "::" + qc]
+            pushes = [(g, e) for g in dp.closure(f) for e in common.member_calls_on(g, cls + "::" + q, ("push_back", "emplace_back"))]
+            writes = dp.sites(f, lambda e: e.kind == "stmt" and e.node.get("k") == "call" and e.node.get("callee") == "write")
             r.instance()
-            ok = tests and pushes and writes and common.same_section(f, la, tests[0].elems[-1], pushes[0], cls + "::" + qm)[0] and common.same_section(f, la, pushes[0], writes[0], cls + "::" + qm)[0]
-            r.expect(ok, f, pushes[0] if pushes else None, "enqueue not atomic", "closed test, push and wake-up write are not one critical section in %s" % short(f.name), okdesc="%s: test, push, wake-up in one section" % short(f.name))
+            ok = bool(tests and pushes and writes) and all(any(dp.same_section(f, t, p, QM)[0] for t in tests) and any(dp.same_section(f, p, w, QM)[0] for w in writes) for p in pushes)
+            r.expect(ok, f, pushes[0][1] if pushes and pushes[0][0] is f else None, "enqueue not atomic", "closed test, push and wake-up write are not one critical section in %s" % short(f.name), okdesc="%s: test, push, wake-up in one section" % short(f.name))
         # promises
         pr = fb.func(cls + "::process", file_suffix=FILES[cls])
         sets = [e for e in pr.stmts() if e.node.get("k") == "mcall" and last(e.node.get("callee", "")) == "set_value"]
         adds = [e for e in pr.stmts() if e.node.get("k") == "mcall" and last(e.node.get("callee", "")) in ("doAddListener", "addListenerDo")]
+        # 'the next command': the declaration of the range-for's loop variable (initialised from the compiler's own __begin iterator —
+        # found by that dataflow, not by the name the source gives the variable)
+        nxt = [e for e in pr.stmts() if e.node.get("k") == "decl" and any(v.get("init") is not None and not v["n"].startswith("__") and
+                                                                         any(y.get("k") == "var" and y["n"].startswith("__begin") for y in walk(v["init"])) for v in e.node["vars"])]
+        if len(nxt) != 1:
+            raise AnalysisBroken("%s::process: the command loop is no longer one range-for over the swapped queue (%d loop variables found)" % (last(cls), len(nxt)))
         r.instance()
-        ok = bool(adds) and len(sets) >= 2 and search(pr, adds[0], lambda x: x.kind == "stmt" and x.node.get("k") == "decl" and any(v["n"] == "c" for v in x.node["vars"]),
+        ok = bool(adds) and len(sets) >= 2 and search(pr, adds[0], lambda x: x is nxt[0],
                                                      stop=lambda x: x in sets, eh=True, edge_ok=lambda b, si: not (b.cond is not None and "listenerReady" in show(b.cond) and b.edge_label(si) is False)) is None
         r.expect(ok, pr, adds[0] if adds else None, "promise not fulfilled", "%s::process can finish an AddListener command (normally or through the catch handler) without fulfilling its promise: "
                  "the synchronous addListener caller blocks for ever" % last(cls), okdesc="%s::process: addListener promise fulfilled on normal and exceptional paths" % last(cls))
-        res = [e for e in sdr.stmts() if e.node.get("k") == "mcall" and last(e.node.get("callee", "")) == "set_value"]
+        # (the residual loop is the set_value in shutdownDrain or in a part of it; process(), which the drain also calls, fulfils promises of its own)
+        is_res = lambda e: part(e) and e.kind == "stmt" and e.node.get("k") == "mcall" and last(e.node.get("callee", "")) == "set_value"
+        is_swap = lambda e: any(e is x for (g, x) in swaps)
+        res = dp.sites(sdr, is_res)
         r.instance()
-        r.expect(bool(res) and swaps and elem_dominates(sdr, swaps[0], res[0]) and not la.mutexes(sdr, res[0]) & {cls + "::" + qm}, sdr, res[0] if res else None, "residual promises",
+        ok = bool(res) and bool(swaps) and dp.search(sdr, ("entry",), lambda e, s: is_res(e), stop=lambda e, s: is_swap(e), enter=dp.relevant(sdr, lambda e: is_res(e) or is_swap(e))) is None and \
+            not any(QM in dp.mutexes(s, e) for (g, e) in res for s in dp.stacks(sdr, g))
+        r.expect(ok, sdr, res[0][1] if res and res[0][0] is sdr else None, "residual promises",
                  "shutdownDrain does not fail the promises of commands left in the queue (outside the lock)", okdesc="%s::shutdownDrain fails residual promises outside the lock" % last(cls))
         # addListener: a refused enqueue is reported, never waited on
         al = fb.func(cls + "::addListener", file_suffix=FILES[cls])
@@ -515,19 +811,27 @@ def r5(ctx, r):
 # ------------------------------------------------------------------ R6
 
 def r6(ctx, r):
-    fb = ctx.fb()
+    fb, dp = ctx.fb(), _deep(ctx)
     for name in ("stop", "addListener"):
         f = fb.func(TR + "::" + name, file_suffix=TFILE)
         r.instance()
-        guards = [b for b in f.blocks.values() if b.cond is not None and "getIoThreadId" in show(b.cond)]
-        throws = [e for e in f.stmts() if e.node.get("k") == "throw"]
-        eng = [e for e in f.stmts() if e.node.get("k") == "mcall" and last(e.node.get("callee", "")) == name and "EngineBase" in e.node.get("callee", "")]
-        ok = bool(guards and throws and eng)
+        is_eng = lambda e, name=name: e.kind == "stmt" and e.node.get("k") == "mcall" and last(e.node.get("callee", "")) == name and "EngineBase" in e.node.get("callee", "")
+        # the identity tests: branches on a comparison of the calling thread with getIoThreadId(), in the function or in a helper of
+        # Transport it calls; whichever way round the test is spelled, its `equal` edge is the I/O thread's
+        guards = []
+        for g in dp.closure(f):
+            for b in g.blocks.values():
+                cp = common.cmp_parts(strip_casts(b.cond)) if b.cond is not None and len(b.succs) == 2 else None
+                if cp and cp[0] in ("==", "!=") and "getIoThreadId" in show(b.cond):
+                    guards.append((g, b, 0 if cp[0] == "==" else 1))
+        if not guards and dp.has(f, lambda e: e.kind == "stmt" and "getIoThreadId" in show(e.node)):
+            raise AnalysisBroken("Transport::%s still reads getIoThreadId() but not in a branch condition the rule can follow" % name)
+        ok = bool(guards) and dp.has(f, is_eng) and dp.has(f, lambda e: e.kind == "stmt" and e.node.get("k") == "throw")
         if ok:
-            # the engine call is not reachable through the guard's true edge
-            g = guards[-1]
-            s = g.succs[0]
-            ok = s is not None and search(f, ("block", s), lambda x: x in eng, eh=False) is None
+            # the engine call is not reachable through the I/O thread's edge of any of the tests
+            enter = dp.relevant(f, is_eng)
+            ok = all(g_.blocks[b.id].succs[si] is not None and dp.search(f, ("block", s, g_, b.succs[si]), lambda e, st_: is_eng(e), enter=enter) is None
+                     for (g_, b, si) in guards for s in dp.stacks(f, g_))
         r.expect(ok, f, None, "%s: no I/O-thread guard" % name, "Transport::%s can reach the engine's blocking %s() from the I/O thread (self-join / self-wait)" % (name, name),
                  okdesc="Transport::%s throws on the I/O thread before calling the engine" % name)
 
@@ -539,7 +843,7 @@ def r6(ctx, r):
         fld = cls + "::_loop"
         gid = [g for g in fb.funcs(cls + "::getIoThreadId") if g.ok]
         r.instance()
-        r.expect(bool(gid) and any(x.get("k") == "mcall" and last(x.get("callee", "")) == "get_id" and field_of(x.get("obj")) == fld for x in gid[0].nodes.values()), gid[0] if gid else cls, None,
+        r.expect(bool(gid) and any(x.get("k") == "mcall" and last(x.get("callee", "")) == "get_id" and field_of(x.get("obj")) == fld for (g_, x) in dp.nodes(gid[0])), gid[0] if gid else cls, None,
                  "%s: I/O thread id source" % last(cls), "%s::getIoThreadId no longer returns _loop.get_id()" % last(cls), okdesc="%s::getIoThreadId = _loop.get_id()" % last(cls))
         for g in fb.in_file(FILES[cls]):
             if not g.ok:
@@ -573,9 +877,148 @@ def r6(ctx, r):
 
 
     # every stop() caller — not only the one that wins the _running CAS — returns behind the I/O thread's end
+    dp = _deep(ctx)
     for cls in (TCP, UDP):
         st = fb.func(cls + "::stop", file_suffix=FILES[cls])
-        common.stop_waits_for_worker(r, st, last(cls) + "::stop()", lambda e, cls=cls: field_of(e.node.get("obj")) == cls + "::_loop")
+        _stop_behind_worker_end(r, dp, st, cls)
+        _join_marker_in_cas_section(r, dp, st, cls)
+
+
+def _is_cv_wait(e):
+    return e.kind == "stmt" and e.node.get("k") == "mcall" and e.node.get("callee", "").startswith("std::condition_variable") and last(e.node["callee"]) in common.CV_WAIT
+
+
+def _is_join_of(cls):
+    return lambda e: e.kind == "stmt" and e.node.get("k") == "mcall" and e.node.get("callee") == "std::thread::join" and field_of(e.node.get("obj")) == cls + "::_loop"
+
+
+def _stop_behind_worker_end(r, dp, st, cls):
+    """common.stop_waits_for_worker with the same two ways out (a call made on the I/O thread itself; nothing to join), but the wait
+    for the joining caller may live in a helper of the engine: a call to a helper is as good as the wait when every path through
+    the helper is (Deep.search walks through it, the self-call test inside the helper included)."""
+    what = last(cls) + "::stop()"
+    is_join = _is_join_of(cls)
+    r.instance()
+    if not dp.has(st, is_join):
+        r.fail(st, None, "%s: no join" % what, "%s no longer joins its worker thread" % what)
+        return
+
+    def edge_ok(b, si):
+        c = strip_casts(b.cond) if b.cond is not None else None
+        if c is None:
+            return True
+        lab = b.edge_label(si)
+        cp = common.cmp_parts(c)
+        # (a) self call: the `==` side of a comparison of this_thread::get_id() with a thread id
+        if cp and cp[0] in ("==", "!=") and "this_thread::get_id()" in show(c) and (cp[0] == "==") == (lab is True):
+            return False
+        # (b) nothing to join
+        if c.get("k") == "mcall" and last(c.get("callee", "")) == "joinable" and lab is False:
+            return False
+        return True
+    w = dp.search(st, ("entry",), "exit", stop=lambda e, s: is_join(e) or _is_cv_wait(e), edge_ok=edge_ok, enter=dp.relevant(st, lambda e: is_join(e) or _is_cv_wait(e)))
+    r.expect(w is None, st, None, "%s returns while the worker may still run" % what, "%s can return without having joined the worker thread or waited for the caller that is joining it (%s): a second caller that "
+             "finds the stop already in progress returns at once while callbacks / handlers are still running or still to come" % (what, Deep.witness(w)),
+             okdesc="%s: every return is behind the join or a wait for the joiner" % what)
+
+
+ATOMIC_RMW = ("compare_exchange_strong", "compare_exchange_weak", "exchange")
+
+
+def _join_marker_in_cas_section(r, dp, st, cls):
+    """A caller of stop() that loses the test-and-set on the run flag waits until 'no join is in progress' — a predicate over a
+    marker field that the winning caller sets and clears.  The wait only holds the loser back if the marker is already set at
+    every moment at which a caller can lose: the marker must be written in the very critical section (of the mutex the waiters
+    hold) in which the test-and-set is won.  A winner that gives the mutex up first — even to re-take it at once in a guard
+    object's constructor — leaves a gap in which the flag already says 'stopped' and the marker still says 'nobody is joining':
+    the loser's predicate is true, it returns, and the I/O thread is still alive behind a returned stop().
+    Decided from the code's own roles: the marker is whatever the wait predicate reads; the mutex is the one held at the wait;
+    the test-and-set is the atomic read-modify-write in the branch that separates the joining path from the waiting path."""
+    fb, la = dp.fb, dp.la
+    what = last(cls) + "::stop()"
+    is_join = _is_join_of(cls)
+    closure = dp.closure(st)
+    waits = [w for w in common.cv_waits(fb, lambda f: any(f is g for g in closure))]
+    if not waits or not dp.has(st, is_join):
+        return      # no second-caller handshake at all: the clause above reports that
+    for w in waits:
+        r.instance()
+        g, we, P = w["f"], w["e"], w["pred"]
+        if P is None:
+            raise AnalysisBroken("%s: the wait at %s has no predicate the rule can read; cannot tell what marks a join in progress" % (what, g.loc(we)))
+        markers = sorted({n["n"] for (h, n) in dp.nodes(P) if n.get("k") == "member" and "t" in n and not n["t"].startswith(("std::mutex", "std::condition_variable"))})
+        if len(markers) != 1:
+            raise AnalysisBroken("%s: the wait predicate at %s reads %s; the rule decides the handshake for a single marker field" % (what, g.loc(we), [last(m) for m in markers]))
+        marker = markers[0]
+        # the mutex of the wait
+        lv = w["lockvar"]
+        fl = la.fn(g)
+        if lv is not None and lv.get("k") == "var" and lv.get("d") in fl.lockvars and fl.lockvars[lv["d"]][0]:
+            ms = set(fl.lockvars[lv["d"]][0][:1])
+        else:
+            ms = None
+            for stack in dp.stacks(st, g):
+                held = dp.mutexes(stack, we)
+                ms = held if ms is None else (ms & held)
+        if not ms or len(ms) != 1:
+            raise AnalysisBroken("%s: cannot identify the mutex held at the wait at %s (%s)" % (what, g.loc(we), sorted(ms or ())))
+        M = next(iter(ms))
+        # the value that means 'no join in progress' (predicate `marker == V`): a write of anything else sets the marker
+        idle = None
+        for e in P.stmts():
+            if e.node.get("k") == "ret" and e.node.get("v") is not None:
+                for (op, a, b) in common.cmp_both(strip_casts(e.node["v"])):
+                    if op == "==" and field_of(strip_views(a)) == marker:
+                        idle = show(strip_views(b))
+        sets, all_writes = set(), []
+        for h in closure:
+            for (e, n, k) in common.field_writes(h, marker):
+                v = common.assigned_value(h, n)
+                all_writes.append((h, e))
+                if idle is None or v is None or show(strip_views(v)) != idle:
+                    sets.add(id(e))
+        # the branch on the test-and-set: the join is reachable through exactly one of its edges, the wait only through the other
+        cands = []
+        to_barrier = dp.relevant(st, lambda e: is_join(e) or e is we)
+        for b in st.blocks.values():
+            c = b.cond
+            if c is None or len(b.succs) != 2:
+                continue
+            rmw = [x for x in walk(c) if x.get("k") == "mcall" and x.get("callee", "").startswith(("std::atomic", "std::__atomic")) and last(x["callee"]) in ATOMIC_RMW]
+            if not rmw:
+                continue
+            E = st.elem_for(rmw[0])
+            if E is None:
+                continue
+            only = lambda si, b=b: (lambda bb, s: not (bb is b and s != si))
+            win = [si for si in (0, 1) if dp.search(st, E, lambda e, s: is_join(e), edge_ok=only(si), enter=to_barrier) is not None]
+            lose = [si for si in (0, 1) if dp.search(st, E, lambda e, s: e is we, edge_ok=only(si), enter=to_barrier) is not None]
+            if len(win) == 1 and lose == [1 - win[0]]:
+                cands.append((b, E, rmw[0], win[0]))
+        if len(cands) != 1:
+            raise AnalysisBroken("%s: cannot find the one atomic test-and-set whose outcome separates the joining caller from the waiting ones (%d candidates)" % (what, len(cands)))
+        D, E, rmw, win = cands[0]
+        flag = last(field_of(rmw.get("obj")) or "?")
+        edge_ok = lambda bb, s: not (bb is D and s != win)
+        has_set = dp.relevant(st, lambda e: id(e) in sets)
+        w1 = None
+        if dp.held((), E, M):
+            w1 = dp.search(st, E, lambda e, s: not dp.held(s, e, M) or is_join(e), stop=lambda e, s: id(e) in sets, edge_ok=edge_ok, enter=has_set) or \
+                dp.search(st, E, "exit", stop=lambda e, s: id(e) in sets, edge_ok=edge_ok, enter=has_set)
+            ok = w1 is None
+        else:
+            ok = False
+        where, gap = "", None
+        if not ok:
+            later = [(h, e) for (h, e) in all_writes if id(e) in sets]
+            where = " (it is set at line %s in %s, in another critical section)" % (", ".join(str(e.line) for (h, e) in later), ", ".join(sorted({short(h.name) for (h, e) in later}))) if later else " (it is never set on that path)"
+            gap = w1[-1] if w1 else None
+        r.expect(ok, st, (gap if not ok and gap is not None else E), "join marker set outside the test-and-set's critical section",
+                 "%s: the caller that wins the `%s.%s` test-and-set (line %d) %s before `%s` — all that the wait predicate of a losing caller reads (line %d) — is set%s: a second stop() "
+                 "that loses the test-and-set in that gap finds its predicate already true and returns at once, while the first caller has not joined the I/O thread yet (close callbacks of "
+                 "shutdownDrain still to come; a ~Transport on that path frees the engine under the live thread)" % (
+                     what, flag, last(rmw["callee"]), E.line, ("gives %s up (%s)" % (last(M), Deep.witness(w1) or "end of stop()")) if dp.held((), E, M) else "does not hold %s" % last(M), last(marker), we.line, where),
+                 okdesc="%s: %s set in the %s section that wins the %s test-and-set" % (what, last(marker), last(M), flag))
 
 
 # ------------------------------------------------------------------ R7 (typestate)
@@ -692,10 +1135,20 @@ def r7(ctx, r):
 # ------------------------------------------------------------------ R8
 
 def r8(ctx, r):
-    fb = ctx.fb()
+    fb, cg, dp = ctx.fb(), ctx.cg(), _deep(ctx)
     for cls in (TCP, UDP):
         roots = thread_roots(ctx, cls)
         n = 0
+
+        def caller_thread_reporter(f, seen=frozenset(), cls=cls):
+            # the documented off-thread onError sources (enqueue failure, start-up errors), or a non-public piece of one: a helper of
+            # the engine every caller of which is such a source (the shared body of the enqueue overloads)
+            if last(f.name) in ("enqueue", "err", "error"):
+                return True
+            if f.access == "public" or f.cls != cls or f.sig in seen:
+                return False
+            callers = [g for (g, e, x) in cg.callers.get(f.name, [])]
+            return bool(callers) and all(caller_thread_reporter(_top(g), seen | {f.sig}) for g in callers)
         for f in fb.in_file(FILES[cls]):
             if not f.ok:
                 continue
@@ -705,7 +1158,7 @@ def r8(ctx, r):
                     r.instance()
                     rs = roots.get(f.sig) or {"?"}
                     ok, extra = io_confined(rs, cls)
-                    if not ok and cb == "onError" and last(f.name) in ("enqueue", "err", "error"):
+                    if not ok and cb == "onError" and caller_thread_reporter(f):
                         r.note("%s: onError from the caller's thread (documented: enqueue failure / start-up errors)" % short(f.name))
                         r.ok()
                         continue
@@ -715,10 +1168,12 @@ def r8(ctx, r):
             raise AnalysisBroken("%s: %d engine callback invocations" % (last(cls), n))
         # stop() joins the I/O thread
         st = fb.func(cls + "::stop", file_suffix=FILES[cls])
-        joins = [e for e in st.stmts() if e.node.get("k") == "mcall" and e.node.get("callee") == "std::thread::join"]
-        enq = [e for e in st.stmts() if e.node.get("k") == "mcall" and e.node.get("callee") == cls + "::enqueue"]
+        # (the join, or the enqueue of the shutdown command, may stand in a helper of the engine: no inlined path reaches a join without the enqueue)
+        is_join = lambda e: e.kind == "stmt" and e.node.get("k") == "mcall" and e.node.get("callee") == "std::thread::join"
+        is_enq = lambda e, cls=cls: e.kind == "stmt" and e.node.get("k") == "mcall" and e.node.get("callee") == cls + "::enqueue"
         r.instance()
-        r.expect(bool(joins) and bool(enq) and elem_dominates(st, enq[0], joins[0]), st, None, "stop does not join", "%s::stop() does not enqueue a shutdown and join the I/O thread" % last(cls),
+        r.expect(dp.has(st, is_join) and dp.has(st, is_enq) and dp.search(st, ("entry",), lambda e, s: is_join(e), stop=lambda e, s: is_enq(e), enter=dp.relevant(st, lambda e: is_join(e) or is_enq(e))) is None,
+                 st, None, "stop does not join", "%s::stop() does not enqueue a shutdown and join the I/O thread" % last(cls),
                  okdesc="%s::stop: enqueue(shutdown) then join" % last(cls))
 
 
